@@ -322,6 +322,26 @@ def gen_plan(family: str, i: int, rng: random.Random, tier: str) -> dict:
     epochs = []
     for ei in range(rng.choice([1, 1, 2, 2, 3])):
         ops = [gen_op(rng) for _ in range(rng.randint(2, 8))]
+        if rng.random() < 0.6:
+            # placed, not left to chance: the same construction twice in a row with whatever it shares switched on
+            # (one configuration dictionary, one helper object, one image object, one project folder)
+            twin = gen_op(rng, allow_fork=False)
+            for _ in range(50):
+                if twin["op"] in ("bee_config", "sb2_config", "iee", "mbi_config", "otfad", "hab", "hab_full", "sb2_keywrap", "iee_config"):
+                    break
+                twin = gen_op(rng, allow_fork=False)
+            if twin["op"] == "bee_config":
+                twin.update(empty_key=rng.random() < 0.7, reuse_config=True)
+            elif twin["op"] == "sb2_config":
+                twin["reuse_config"] = True
+            elif twin["op"] == "iee":
+                twin["shared_attr"] = True
+            elif twin["op"] == "mbi_config":
+                twin["reuse_object"] = True
+            elif twin["op"] == "otfad":
+                twin.update(export=True)
+            at = rng.randrange(len(ops) + 1)
+            ops[at:at] = [twin, copy.deepcopy(twin)]
         mods = []
         flat = []
         for o in ops:
